@@ -90,6 +90,11 @@ CLAIMED = {
         "level": "Decides the lookup order and path-walking rules stated by the property as structural facts of the two functions that implement them, plus key identity and literal agreement; what each reference resolves to in a given tree is not decided.",
         "note": "Partial (thin): clauses R1-R6.",
     },
+    "C02": {
+        "technique": "sibling agreement of all LayoutBuilder walks (context classified from resolved HIR patterns, seeding and traversal order read from MIR), direction checks of the clone plumbing by argument-origin tracing, ADT shape / derive table for the shared and immutable types",
+        "level": "Decides offset-table agreement between the independent layout walks and the aliasing structure of lists vs values; value semantics and exact addressing of generated code for all programs are not decided.",
+        "note": "Partial: clauses L1-L3.",
+    },
 }
 _PENDING = "check under construction in this session; not yet claimed"
 NOT_APPLICABLE = {p: _PENDING for p in
